@@ -221,6 +221,13 @@ def run(ctx):
     # 2. harness + server from the checked tree
     moddir = os.path.join(vlib.VERIF, "harness", "replynet")
     exe = ctx.go_build("c03net", moddir, overlay=OVERLAY, tags="verif")
+    with vlib.Lock("go-c03net"):
+        rc, tout, _ = vlib.sh(["go", "test", "-count=1", "-vet=off", "-tags", "verif", "-overlay",
+                               os.path.join(vlib.BUILD, "c03net.overlay.json"), "."], cwd=moddir, timeout=600)
+    ctx.obligation("monitor self-tests (harness/replynet/monitor_test.go: synthetic good/bad logs for every rule)", rc == 0,
+                   "" if rc == 0 else tout[-800:])
+    if rc != 0:
+        raise vlib.BuildError("monitor self-tests failed:\n" + tout[-2000:])
     server = ctx.go_build("c03net-slock", moddir, tags=None, pkg="github.com/snower/slock")
     ctx.trusted.append("harness/replynet (own minimal binary/RESP clients, monitor.go) and the injected read-only inspection helpers "
                        "harness/replynet/inj/zz_verif_replynet.go; schedules of the statistical part are the Go runtime's and the kernel's")
